@@ -387,6 +387,11 @@ Proof.
 Qed.
 Lemma in_rows_concat {A} (x : A) row rows : In row rows -> In x row -> In x (concat rows).
 Proof. intros H1 H2. apply in_concat. exists row. split; assumption. Qed.
+Lemma flatten_len_pos ps : ps <> [] -> 1 <= len (flatten ps).
+Proof.
+  destruct ps as [|p ps]; [congruence|]. intros _. rewrite len_flatten_cons.
+  pose proof (len_nonneg (fst p)). pose proof (len_nonneg (flatten ps)). lia.
+Qed.
 Lemma adj_le crlf row b : 0 <= b -> (forall e, In e row -> e <= b) -> forall e, In e (adj crlf row) -> e <= b.
 Proof.
   intros Hb H e He. destruct crlf; [|apply H; exact He].
@@ -403,7 +408,7 @@ Theorem field_table_correct : forall (crlf : bool) (n : Z) (rows : list (list (l
   let file := lay (eol_of crlf) (map (intercalate [9]) rows) in
   exists t, delim_table 9 file = Some t /\ t_data t = file /\ table_fields t = rows /\ len (t_starts t) = len rows
             /\ (forall row s, In row (t_starts t) -> In s row -> 0 <= s)
-            /\ (forall row e, In row (t_ends t) -> In e row -> e <= len file).
+            /\ (forall row e, In row (t_ends t) -> In e row -> e < len file).
 Proof.
   intros crlf n rows Hn Hrows H file.
   assert (Hne : forall r, In r rows -> r <> []).
@@ -465,7 +470,8 @@ Proof.
   - intros row e Hrow He. rewrite Hfile in Hrow. unfold ps in Hrow.
     rewrite cr_adjust_rows in Hrow by (try exact Hcl; discriminate).
     apply in_map_iff in Hrow. destruct Hrow as [row0 [E Hrow0]]. subst row.
-    revert e He. apply adj_le; [apply len_nonneg|].
+    assert (Hpos : 1 <= len file) by (rewrite Hfile; apply flatten_len_pos; exact Hpsne).
+    enough (e <= len file - 1) by lia. revert e He. apply adj_le; [lia|].
     intros e He. pose proof (dpos_le 0 ps e) as P. rewrite Hfile.
     assert (In e (dpos 0 ps)) by (unfold ps; rewrite dpos_all; eapply in_rows_concat; eassumption).
     specialize (P H0). lia.
